@@ -322,7 +322,8 @@ input::
                 self._evalmon = monitor #FIXME: need .prepend(current)
         else:
             raise TypeError("'%s' is not a monitor instance" % monitor)
-        return
+        # rebind the objective, so evaluations are logged to the new monitor
+        return self._update_objective()
 
     def SetStrictRanges(self, min=None, max=None, **kwds):
         """ensure solution is within bounds
